@@ -433,6 +433,9 @@ type CorpusFile struct {
 	Note     string          `json:"note,omitempty"`
 	Case     json.RawMessage `json:"case"`
 	Failure  *Failure        `json:"failure,omitempty"`
+	// ScheduleDependent: the case is a concurrent workload whose failure needs a particular interleaving; a replay that passes
+	// does not mean the finding is gone, so the finding stays announced
+	ScheduleDependent bool `json:"schedule_dependent,omitempty"`
 }
 
 // Replay runs every committed corpus case of the property (and $VERIF_REPLAY, if set) through
@@ -482,6 +485,10 @@ func (s *Session) Replay(run func(raw json.RawMessage) *Failure) {
 				if f != nil {
 					s.addViolation(rel, f)
 				}
+			case f == nil && cf.ScheduleDependent:
+				s.mu.Lock()
+				s.replayLines = append(s.replayLines, fmt.Sprintf("KNOWN-FINDING: property=%s %s: %s (replay=%s; schedule dependent, the interleaving did not occur in this run)", s.Prop, id, kf.What, rel))
+				s.mu.Unlock()
 			case f == nil:
 				s.mu.Lock()
 				s.replayLines = append(s.replayLines, fmt.Sprintf("NOTE: property=%s known finding %s no longer reproduces with %s", s.Prop, id, rel))
